@@ -37,6 +37,7 @@ assert_equal(call('add', 5, 4), 9,
 
 """
 
+import inspect
 from pedal.core.feedback import Feedback, FeedbackGroup
 from pedal.core.feedback_category import FeedbackStatus
 from pedal.core.report import MAIN_REPORT
@@ -166,10 +167,18 @@ class RuntimeAssertionFeedback(AssertionFeedback):
         # An operand that is itself an error, or a relation that cannot even
         # be evaluated for these operands, means the assertion does not hold.
         relation = self.condition
+        # Keywords that only shape the wording (explanation=, context=,
+        # assertion=, ...) are not arguments of the relation itself
+        relation_parameters = inspect.signature(relation).parameters
+        takes_any_keyword = any(parameter.kind is inspect.Parameter.VAR_KEYWORD
+                                for parameter in relation_parameters.values())
 
         def condition(*condition_args, **condition_kwargs):
             if left.is_error or right.is_error:
                 return True
+            if not takes_any_keyword:
+                condition_kwargs = {name: value for name, value in condition_kwargs.items()
+                                    if name in relation_parameters}
             try:
                 return relation(*condition_args, **condition_kwargs)
             except Exception:
